@@ -241,3 +241,7 @@ PROFILES: Dict[str, dict] = {
 PROFILES["tiny"] = {"n_sims": (2, 3), "until": (2, 3), "n_conns": (1, 4), "depth": 1, "p_two_entities": 0.1}
 PROFILES["tiny_flat"] = {"n_sims": (2, 3), "until": (2, 3), "n_conns": (1, 4), "depth": 0,
                          "kinds": {"plain": 6, "shift": 4, "weak": 0}, "p_two_entities": 0.1}
+
+PROFILES["sibling"] = {"depth": 2, "p_root": 0.15, "n_sims": (3, 5), "kinds": {"plain": 5, "shift": 1, "weak": 5},
+                       "types": {"time-based": 1, "event-based": 6, "hybrid": 3}, "p_initial_event": 0.9,
+                       "n_conns": (3, 8), "Lmax": 3}
